@@ -256,6 +256,19 @@ class Err(Exception):
     pass
 
 
+def _kw(default_reverse, rev, **other):
+    """keyword arguments by omission: `reverse` (and n / size / scheme given through `other` as (default, value)) equal to the DOCUMENTED
+    default of the pinned version are not passed, so that the defaults in the signatures are exercised (a first-order mutant
+    `reverse=True` in the signature of fpa.rpolynomial survived when the flag was always passed)"""
+    kw = {}
+    if rev != default_reverse:
+        kw["reverse"] = rev
+    for k, (dflt, val) in other.items():
+        if val != dflt:
+            kw[k] = val
+    return kw
+
+
 def real_values(dom, toks):
     """Run the REAL function named by the command on the parsed arguments.
     Returns ("elem", v) | ("list", l) | ("nat", n) | ("divmod", (Q, R)); raises the code's own exception."""
@@ -277,38 +290,38 @@ def real_values(dom, toks):
         x = parse(toks[4])
         cs = [parse(t) for t in toks[5:]]
         if md == "fpa":
-            return "elem", fpa.fast_polynomial(cx, x, cs, reverse=rev, scheme=scheme_fn(fpa, sch))
-        return "elem", P.fast_polynomial(x, cs, reverse=rev, scheme=scheme_fn(P, sch))
+            return "elem", fpa.fast_polynomial(cx, x, cs, scheme=scheme_fn(fpa, sch), **_kw(True, rev))
+        return "elem", P.fast_polynomial(x, cs, scheme=scheme_fn(P, sch), **_kw(False, rev))
     if cmd == "horner":
         rev = toks[1] == "1"
-        return "elem", fpa.horner(cx, parse(toks[2]), [parse(t) for t in toks[3:]], reverse=rev)
+        return "elem", fpa.horner(cx, parse(toks[2]), [parse(t) for t in toks[3:]], **_kw(True, rev))
     if cmd == "rpoly":
         md, rev = toks[1], toks[2] == "1"
         x = parse(toks[3])
         cs = [parse(t) for t in toks[4:]]
-        return "elem", (fpa.rpolynomial(cx, x, cs, reverse=rev) if md == "fpa" else P.rpolynomial(x, cs, reverse=rev))
+        return "elem", (fpa.rpolynomial(cx, x, cs, **_kw(False, rev)) if md == "fpa" else P.rpolynomial(x, cs, **_kw(False, rev)))
     if cmd == "asr":
-        return "list", P.asrpolynomial([parse(t) for t in toks[2:]], reverse=toks[1] == "1")
+        return "list", P.asrpolynomial([parse(t) for t in toks[2:]], **_kw(False, toks[1] == "1"))
     if cmd == "laurent":
         sch, rev, m = toks[1], toks[2] == "1", int(toks[3])
         z = parse(toks[4])
         cs = [parse(t) for t in toks[5:]]
-        return "elem", fpa.laurent(cx, z, cs, m, reverse=rev, scheme=scheme_fn(fpa, sch))
+        return "elem", fpa.laurent(cx, z, cs, m, scheme=scheme_fn(fpa, sch), **_kw(False, rev))
     if cmd in ("mul", "add", "divmod"):
         rev, n = toks[1] == "1", int(toks[2])
         l = [parse(t) for t in toks[3:]]
         A, B = l[:n], l[n:]
         if cmd == "mul":
-            return "list", P.multiply(A, B, reverse=rev)
+            return "list", P.multiply(A, B, **_kw(False, rev))
         if cmd == "add":
-            return "list", P.add(A, B, reverse=rev)
-        return "divmod", P.divmod(A, B, reverse=rev)
+            return "list", P.add(A, B, **_kw(False, rev))
+        return "divmod", P.divmod(A, B, **_kw(False, rev))
     if cmd == "deriv":
-        return "list", P.derivative([parse(t) for t in toks[3:]], n=int(toks[2]), reverse=toks[1] == "1")
+        return "list", P.derivative([parse(t) for t in toks[3:]], **_kw(False, toks[1] == "1", n=(1, int(toks[2]))))
     if cmd == "taylor":
         rev = toks[1] == "1"
         size = None if toks[2] == "N" else int(toks[2])
-        return "list", P.taylorat([parse(t) for t in toks[4:]], parse(toks[3]), reverse=rev, size=size)
+        return "list", P.taylorat([parse(t) for t in toks[4:]], parse(toks[3]), **_kw(False, rev, size=(None, size)))
     raise Err("unknown command " + cmd)
 
 
